@@ -1,5 +1,6 @@
 CONSTANTS MaxSteps = 5
           MaxRows = 2
+          CVariant = "atomic"
           Vals = {0, 1}
 INIT Init
 NEXT Next
